@@ -190,7 +190,7 @@ def gen_pair_linear(rng):
     (rxd, oxd), (ryd, oyd) = out
     gs = (NYs, NXs, CRS, rxs, 0.0, oxs, 0.0, rys, oys)
     gd = (NYd, NXd, CRS, rxd, 0.0, oxd, 0.0, ryd, oyd)
-    return gd, gs, gen_spec(rng, NYd, NXd, allow_zero=False), gen_spec(rng, NYs, NXs)
+    return gd, gs, gen_spec(rng, NYd, NXd), gen_spec(rng, NYs, NXs)
 
 
 def gen_pair_general(rng, gi, exact_rot=True):
